@@ -54,12 +54,12 @@ Theorem limits_new_unchoke_guard_up : forall v c h h', v_dir v = Up -> try_uncho
 Proof. exact Proofs2.limits_new_unchoke_guard_up. Qed.
 Print Assumptions limits_new_unchoke_guard_up.
 
-Theorem tick_within_global_max_refuted :
+Theorem tick_max_form_refuted :
   exists ops s, run (init 2 2) ops = Ok s /\ h_max (s_up s) = 2%N /\
     e_min (getent (s_up s) 0) = 3%N /\ e_min (getent (s_up s) 1) = 0%N /\
-    h_cur (s_up s) = 6 /\ lenZ (e_u (getent (s_up s) 1)) = 3.
-Proof. exact Proofs2.tick_within_global_max_refuted. Qed.
-Print Assumptions tick_within_global_max_refuted.
+    h_cur (s_up s) = 4 /\ lenZ (e_u (getent (s_up s) 0)) = 3 /\ lenZ (e_u (getent (s_up s) 1)) = 1.
+Proof. exact Proofs2.tick_max_form_refuted. Qed.
+Print Assumptions tick_max_form_refuted.
 
 Theorem download_set_queued_within_global_max_refuted :
   exists ops s, run (init 1 1) ops = Ok s /\ h_max (s_dn s) = 1%N /\ h_cur (s_dn s) = 2.
